@@ -4,7 +4,7 @@ type table."""
 import ast
 import re
 
-from sa import tables, templ, pyflow
+from sa import pattern, tables, templ, pyflow
 from sa.loader import AnalysisError, enclosing_function, parent_chain
 
 EXPLANATION = (
@@ -476,6 +476,45 @@ def rule_x(repo, run):
                  only=lambda c: not c.startswith(("docs/", "wrapf.")) and "F_name" not in c and "PY_" not in c and "LUA_" not in c)
 
 
+def rule_r11(repo, run, table):
+    R = run.rule("C02.R11", "a C++ local that copies an argument is initialised from the C argument for intent "
+                            "in/inout and written back to it for intent out/inout")
+    n = 0
+    for lang in ("c", "c++"):
+        for name, e in sorted(table.resolve_all(lang).items()):
+            if not name.startswith("c_") or not e.get("cxx_local_var"):
+                continue
+            intent = [p_ for p_ in name.split("_") if p_ in ("in", "out", "inout")]
+            if not intent:
+                continue
+            intent = intent[0]
+            pre = "\n".join(e.lines("pre_call"))
+            post = "\n".join(e.lines("post_call"))
+            decl = [l for l in templ.code_lines(pre) if "{cxx_var}" in l]
+            # a copy (constructed / allocated), as opposed to a pointer into the caller's storage
+            copy = any(re.search(r"std::(string|vector<[^>]*>)\s*\{cxx_var\}|=\s*\t?\s*new\b|ShroudStr(Array)?Alloc", l) for l in decl)
+            if not copy:
+                continue
+            n += 1
+            probs = []
+            if intent in ("in", "inout") and "{c_var}" not in pre:
+                probs.append("the local copy is never given the caller's value ({c_var} is not used in pre_call: %r)"
+                             % pre[:80])
+            if intent in ("out", "inout") and not ("{c_var}" in post or "{c_var_context}" in post):
+                probs.append("the local copy is never written back ({c_var} / {c_var_context} not used in post_call)")
+            run.check(R, "statements.fc_statements[%s]:copy[%s]" % (name, lang), not probs, "; ".join(probs),
+                      table.loc(e.raw), sample=dict(entry=name, intent=intent, pre_call=pre[:100], post_call=post[:100]))
+    run.floor(R, "entries with a copied C++ local", n, 20)
+    # const methods are called through a pointer-to-const `this`
+    wc = repo.module("wrapc")
+    f = wc.func("Wrapc.wrap_function")
+    tmpl = [t for t in pattern.strings(f) if "{CXX_this}" in t and "->addr" in t]
+    run.check(R, "wrapc.Wrapc.wrap_function:this-const", len(tmpl) == 1 and tmpl[0].count("{c_const}") == 2,
+              "the `this` pointer of a method must be declared and cast with {c_const} (const methods are called on a "
+              "pointer-to-const: otherwise a method overloaded on const always resolves to the non-const overload): %s"
+              % tmpl, wc.loc(f))
+
+
 def run(repo, run, tier):
     tables.check_model_assumptions(repo)
     table = tables.StatementTable(repo, "statements", "fc_statements")
@@ -489,4 +528,5 @@ def run(repo, run, tier):
     rule_r7(repo, run)
     rule_r8(repo, run)
     rule_r9(repo, run)
+    rule_r11(repo, run, table)
     rule_x(repo, run)
